@@ -37,6 +37,26 @@ class Cfg:
         return res
 
 
+def _rust_oracle(out_path):
+    """lines `<case index> <signature> <detail>` written by the harness next to its observations"""
+    res = {}
+    p = out_path + ".oracle"
+    if os.path.exists(p):
+        for l in lib.read_lines(p):
+            t = l.split(" ", 2)
+            if len(t) >= 2 and t[0].isdigit():
+                res.setdefault(int(t[0]), []).append((t[1], t[2] if len(t) > 2 else ""))
+    return res
+
+
+def case_oracle(cfg, ops, impl_path):
+    """all oracle failures (python + rust side) of a single-case op list executed into impl_path"""
+    impl = lib.read_lines(impl_path)
+    res = list(cfg.oracle(ops, impl))
+    for v in _rust_oracle(impl_path).values(): res += v
+    return res
+
+
 def _run_case_files(cfg, dv, model, work, ops, tag):
     p = os.path.join(work, "shrink_%s.ops" % tag)
     with open(p, "w") as f: f.write("\n".join(ops) + "\n")
@@ -132,6 +152,7 @@ def run(cfg, tier, seed):
         if len(impl) != len(ops):
             raise CheckError("harness wrote %d observations for %d ops (%s)" % (len(impl), len(ops), name))
         cases = lib.split_cases(ops, impl)
+        rust_or = _rust_oracle(io)
         mcases = lib.split_cases(ops, mod) if mod is not None else None
         for ci, (cops, couts) in enumerate(cases):
             evaluations += 1
@@ -139,7 +160,7 @@ def run(cfg, tier, seed):
                 distinct.add(hashlib.sha1("\n".join(cops[1:]).encode()).digest()[:8])
             if len(cov["samples"]) < 3 and len(cops) > 2 and ci % 97 == 3:
                 cov["samples"].append({"stream": name, "ops": cops[:12], "impl": couts[:12]})
-            for sig, detail in cfg.oracle(cops, couts):
+            for sig, detail in list(cfg.oracle(cops, couts)) + rust_or.get(ci, []):
                 oracle_fail.append((name, cops, sig, detail))
             if mcases is not None:
                 if mcases[ci][1] != couts:
@@ -164,8 +185,8 @@ def run(cfg, tier, seed):
         if sig in reported: continue
         reported.add(sig)
         def failing(c):
-            impl, _ = _run_case_files(cfg, dv, None, work, c, "o")
-            return any(s == sig for s, _ in cfg.oracle(c, impl))
+            _run_case_files(cfg, dv, None, work, c, "o")
+            return any(s == sig for s, _ in case_oracle(cfg, c, os.path.join(work, "shrink_o.ops.impl")))
         small = lib.ddmin(cops, failing)
         rep.violation(lib.save_replay(cfg.prop, small), "oracle: %s: %s (stream %s)" % (sig, detail, name))
 
@@ -179,8 +200,8 @@ def run(cfg, tier, seed):
         impl, mod = _run_case_files(cfg, dv, model, work, small, "d")
         found = None
         for cand in [small] + cfg.neighbours(small):
-            ci, _ = _run_case_files(cfg, dv, None, work, cand, "n")
-            bad = [(s, d) for s, d in cfg.oracle(cand, ci) if s not in known]
+            _run_case_files(cfg, dv, None, work, cand, "n")
+            bad = [(s, d) for s, d in case_oracle(cfg, cand, os.path.join(work, "shrink_n.ops.impl")) if s not in known]
             if bad: found = (cand, bad[0]); break
         if found:
             rep.violation(lib.save_replay(cfg.prop, found[0]),
